@@ -59,3 +59,32 @@ package util
 //@   ensures[ascii-kept]  forall i int :: 0 <= i && i < len(s) && old(s[i]) <= 127 ==> i < len(result)
 //@   ensures[prefix-unchanged] forall i int, k int :: 0 <= i && i <= k && k < len(s) && old(s[k]) <= 127 ==> result[i] == old(s[i])
 //@   ensures[no-ascii-no-growth] (forall k int :: 0 <= k && k < len(s) ==> old(s[k]) > 127) ==> len(result) <= len(s)
+
+// ==== files in the queue directory (C04, C03) ========================================================================================
+// WriteFileAt reports success only for a COMPLETE file: filename exists with exactly the bytes of data. crashok: whatever
+// is visible under `filename` at any moment (= if the process dies right there) is either absent/empty or complete.
+//@ pure func complete(k int, data []byte) bool := fexists[k] && fsize[k] == len(data) && forall i int :: 0 <= i && i < len(data) ==> fcontent[k][i] == data[i]
+//@ func WriteFileAt(dir *os.File, filename string, data []byte, perm os.FileMode) error
+//@   property C04 C03
+//@   requires dir != nil
+//@   modifies fexists, fsize, fcontent, fdname
+//@   ensures[success-means-complete] result == nil ==> complete(key(filename), data)
+//@   crashinv[never-a-partial-file-under-the-final-name] !fexists[key(filename)] || fsize[key(filename)] == 0 || complete(key(filename), data) || (old(fexists[key(filename)]) && fsize[key(filename)] == old(fsize[key(filename)]))
+
+//@ func ReadFileAt(dir *os.File, filename string) ([]byte, error)
+//@   property C04 C03
+//@   requires dir != nil
+//@   modifies fdname
+//@   ensures[reads-what-is-on-disk] result.1 == nil ==> result.0 != nil && fexists[key(filename)] && len(result.0) <= fsize[key(filename)] && forall i int :: 0 <= i && i < len(result.0) ==> result.0[i] == fcontent[key(filename)][i]
+
+//@ func StatFileAt(dir *os.File, filename string) (unix.Stat_t, error)
+//@   property C03
+//@   requires dir != nil
+//@   ensures result.1 == nil ==> fexists[key(filename)] && result.0.Size == fsize[key(filename)] && result.0.Size >= 0
+
+//@ func UnlinkFileAt(dir *os.File, filename string) error
+//@   property C03 C04
+//@   requires dir != nil
+//@   modifies fexists[key(filename)]
+//@   ensures result == nil ==> !fexists[key(filename)]
+//@   ensures result != nil ==> fexists[key(filename)] == old(fexists[key(filename)])
